@@ -411,7 +411,7 @@ def main(ck):
                               "no axioms (Print Assumptions: closed)", "Go regexp as the oracle of regex atoms; Go regexp/syntax parser for the pattern trees",
                               "Go harness cmd/c10 (generator, brute-force oracle), python driver props/C10/run.py (interning, signatures)"]
     ck.coq_audit(["C10"])
-    ok = ck.coq_build(["C10/Proofs.vo", "C10/RegexProofs.vo", "C10/RegexSearch.vo", "C10/Corr.vo", "C10/Props.vo", "C10/Refuted.vo"])
+    ok = ck.coq_build(["C10/Proofs.vo", "C10/RegexProofs.vo", "C10/RegexSearch.vo", "C10/FlushClear.vo", "C10/Corr.vo", "C10/Props.vo", "C10/Refuted.vo"])
     if ok:
         ck.coq_props(["C10/Props.v", "C10/Refuted.v"])
     binp = ck.go_build("./cmd/c10", "c10")
@@ -428,7 +428,8 @@ def main(ck):
     cases = [json.loads(l) for l in out.splitlines() if l.startswith('{"i"')]
     matrices = [json.loads(l) for l in out.splitlines() if l.startswith('{"kind":"regex"')]
     ncorp = sum(1 for c in cases if c["kind"] == "corpus")
-    if rc != 0 or len(cases) - ncorp != n or (not getattr(ck, "replay", None) and ncorp < len(files)) or len(matrices) != 1:
+    nsweep = sum(1 for c in cases if c["kind"] == "sweep")
+    if rc != 0 or len(cases) - ncorp - nsweep != n or (n > 0 and nsweep == 0) or (not getattr(ck, "replay", None) and ncorp < len(files)) or len(matrices) != 1:
         ck.broken.append("harness c10 failed rc=%d cases=%d matrices=%d: %s" % (rc, len(cases), len(matrices), out[-800:]))
         return
     matrix = matrices[0]
@@ -671,6 +672,7 @@ def main(ck):
     ck.cov["op_histogram"] = hist
     ck.cov["atom_histogram"] = pat_hist
     ck.cov["corpus_cases"] = ncorp
+    ck.cov["sweep_cases"] = nsweep
     ck.cov["oracle_failures_outside_every_signature"] = nviol
     ck.cov["open_findings_not_reproduced"] = sorted(s for s in stale if ck.match_finding(s))
     ck.cov["samples"] = [{"ops": c["ops"][:6]} for c in cases[ncorp:ncorp + 2]]
